@@ -97,6 +97,7 @@ def r3_index_loops(text):
     out = text
     pats = [
         (r"for\s+\((\w+),\s*(&?\w+)\)\s+in\s+([\w.]+)\.iter\(\)\.enumerate\(\)\s*\{", "enum"),
+        (r"for\s+\((\w+),\s*(\w+)\)\s+in\s+([\w.]+)\.chars\(\)\.enumerate\(\)\s*\{", "chars"),
         (r"for\s+(&?\w+)\s+in\s+&mut\s+([\w.]+)\s*\{", "mut"),
         (r"for\s+(&?\w+)\s+in\s+&([\w.]+)\s*\{", "ref"),
         (r"for\s+(&?\w+)\s+in\s+([\w.]+)\.iter\(\)\s*\{", "ref"),
@@ -113,6 +114,14 @@ def r3_index_loops(text):
             break
         mm, kind = hit
         k = n
+        if kind == "chars":
+            # iterate over the characters of a string: materialise them once (R5 chars_of)
+            ivar, pv, expr = mm.group(1), mm.group(2), mm.group(3)
+            head = ("let __cs%d = chars_of(&%s); let mut __n%d: usize = 0; while __n%d < __cs%d.len() { let %s = __n%d; __n%d += 1; let %s = __cs%d[%s];"
+                    % (k, expr, k, k, k, ivar, k, k, pv, k, ivar))
+            out = out[:mm.start()] + head + out[mm.end():]
+            n += 1
+            continue
         if kind == "enum":
             ivar, pvar, expr = mm.group(1), mm.group(2), mm.group(3)
         else:
@@ -131,6 +140,75 @@ def r3_index_loops(text):
         else:
             head = "let mut __n%d: usize = 0; while __n%d < %s.len() { let __k%d = __n%d; __n%d += 1; %s" % (k, k, expr, k, k, k, bind)
         out = out[:mm.start()] + head + out[mm.end():]
+        n += 1
+    return out, n
+
+
+def r7_write_macros(text):
+    """R7: `write!(f, "FMT", args..)` becomes a block of sink calls, one per piece of the format
+    string: literal text -> f.write_str("..")?, `{x}` / `{}` -> f.w_display(x)?, `{x:02}` ->
+    f.w_pad2(x)?, `{x:.N}` -> f.w_fixed(x, N)?, `{x:?}` -> f.w_debug(x)?; the block ends in Ok(()).
+    What core::fmt prints for each argument is the (ASSUMED) contract of those sink methods;
+    which argument is printed with which flags, and the literal text, stay visible."""
+    n = 0
+    out = text
+    while True:
+        mask = rustscan.code_mask(out)
+        mm = None
+        for m in re.finditer(r"\bwrite!\(", out):
+            if mask[m.start()]:
+                mm = m
+                break
+        if not mm:
+            break
+        op = mm.end() - 1
+        cl = rustscan.match_brace(out, mask, op)
+        inner = out[op + 1:cl]
+        m2 = re.match(r"\s*(\w+)\s*,\s*\"((?:[^\"\\]|\\.)*)\"\s*(?:,(.*))?$", inner, re.S)
+        if not m2:
+            raise Drift("R7: unsupported write! shape: " + inner[:80])
+        sink, fmt, rest = m2.group(1), m2.group(2), (m2.group(3) or "")
+        args = [a.strip() for a in rest.split(",") if a.strip()]
+        pieces = []
+        pos = 0
+        ai = 0
+        for pm in re.finditer(r"\{\{|\}\}|\{([^{}]*)\}", fmt):
+            if pm.start() > pos:
+                pieces.append(("lit", fmt[pos:pm.start()]))
+            pos = pm.end()
+            if pm.group(0) == "{{":
+                pieces.append(("lit", "{"))
+                continue
+            if pm.group(0) == "}}":
+                pieces.append(("lit", "}"))
+                continue
+            spec = pm.group(1)
+            name, _, flags = spec.partition(":")
+            if name == "":
+                name = args[ai]
+                ai += 1
+            pieces.append(("arg", name, flags))
+        if pos < len(fmt):
+            pieces.append(("lit", fmt[pos:]))
+        # merge adjacent literals
+        calls = []
+        for pc in pieces:
+            if pc[0] == "lit":
+                calls.append('proof { reveal_strlit("%s"); } %s.write_str("%s")?;' % (pc[1], sink, pc[1]))
+            else:
+                name, flags = pc[1], pc[2]
+                if flags == "":
+                    calls.append("%s.w_display(%s)?;" % (sink, name))
+                elif flags == "02":
+                    calls.append("%s.w_pad2(%s)?;" % (sink, name))
+                elif flags == "?":
+                    calls.append("%s.w_debug(%s)?;" % (sink, name))
+                elif re.fullmatch(r"\.\d+", flags):
+                    calls.append("%s.w_fixed(%s, %s)?;" % (sink, name, flags[1:]))
+                else:
+                    raise Drift("R7: unsupported format flags {%s}" % spec)
+        block = "{ " + " ".join(calls) + " Ok(()) }"
+        out = out[:mm.start()] + block + out[cl + 1:]
         n += 1
     return out, n
 
